@@ -148,6 +148,74 @@ def audio_of(c, m, cmd):
 
 
 FAIL_MSG = "played iterable raises"
+WRITE_FAIL_MSG = "injected write failure"
+DEFAULT_CHUNKS_SIZE = 2048
+API_INFOS = [{"name": "ALSA", "defaultOutputDevice": 2, "defaultInputDevice": 3},
+             {"name": "JACK Audio Connection Kit", "defaultOutputDevice": 7, "defaultInputDevice": 5}]
+KINDS = ("int", "float", "fraction", "half-float", "half-fraction")
+
+
+def shape_of(c):
+    """How the calls of the case are WRITTEN (the model sees what they mean):
+    cs_how   "kw" chunk_size=cs | "default" chunk_size omitted, chunks.size = cs during the run
+    rate     None (omitted: 44100) | a number given by keyword
+    channels None (omitted: 1) | 2 given by keyword (chunks of chunk_size * channels samples)
+    wait_how "pos" AudioIO(wait) | "kw" AudioIO(wait=wait) | "omit" AudioIO() (only when wait is false)
+    api      False | True: AudioIO(..., api="jack") with two host APIs known to the backend
+    device   None | explicit output_device_index keyword (wins over the api default)
+    kind     spelling of the samples: int | float | Fraction | half-integers as float / Fraction
+    close_how "close" | "terminate" (alias)"""
+    sh = {"cs_how": "kw", "rate": None, "channels": None, "wait_how": "pos", "api": False, "device": None,
+          "kind": "int", "close_how": "close"}
+    sh.update(c.get("shape") or {})
+    if c["wait"] and sh["wait_how"] == "omit":
+        sh["wait_how"] = "kw"
+    return sh
+
+
+def spell(xs, kind):
+    if kind == "float":
+        return [float(x) for x in xs]
+    if kind == "fraction":
+        return [Fraction(x) for x in xs]
+    if kind == "half-float":
+        return [x / 2.0 for x in xs]
+    if kind == "half-fraction":
+        return [Fraction(x, 2) for x in xs]
+    return list(xs)
+
+
+def kind_of(c, cmd):
+    """integer sample formats take the plain integers only"""
+    return shape_of(c)["kind"] if play_opts(c, cmd)[1] == "f" else "int"
+
+
+def call_of(c, cmd):
+    """keyword arguments of the play call as written -> (kwargs for the impl, call object for the driver)"""
+    sh = shape_of(c)
+    cs, dfmt, _src, _fail = play_opts(c, cmd)
+    own = len(cmd) > 2 and "cs" in cmd[2]
+    kw, call = {}, {}
+    if own or sh["cs_how"] == "kw":
+        kw["chunk_size"] = call["chunk_size"] = cs
+    if dfmt != "f":
+        kw["dfmt"] = call["dfmt"] = dfmt
+    if sh["rate"] is not None:
+        kw["rate"] = call["rate"] = sh["rate"]
+    if sh["channels"] is not None:
+        kw["channels"] = call["channels"] = sh["channels"]
+    if sh["device"] is not None:
+        kw["output_device_index"] = call["device"] = sh["device"]
+    return kw, call
+
+
+def samples_per_chunk(c, cmd):
+    return play_opts(c, cmd)[0] * (shape_of(c)["channels"] or 1)
+
+
+def write_faults(c):
+    """{player index: number of writes that succeed before one raises} (JSON keys are strings)"""
+    return {int(k): v for k, v in (c.get("faults") or {}).get("write", {}).items()}
 FMT_SIZE = {"f": 4, "h": 2, "i": 4}     # formats AudioThread knows (_STRUCT2PYAUDIO); "b"/"B" too narrow
 
 
@@ -228,14 +296,14 @@ def pend_str(pend):
     return ",".join("%d:%s:%d" % (t, l, 1 if e else 0) for t, l, e in pend)
 
 
-def decode(data, cs, dfmt="f"):
+def decode(data, cs, dfmt="f", scale=1):
     try:
         vals = struct.unpack("%d%s" % (cs, dfmt), data)
     except struct.error:
         return ["bad-length:%d" % len(data)]
     out = []
     for v in vals:
-        f = Fraction(v)
+        f = Fraction(v) * scale
         out.append(int(f) if f.denominator == 1 else str(f))
     return out
 
@@ -283,6 +351,9 @@ def run_case(c, pinned=False):
 
     S = sched.Scheduler(c.get("schedule", ()), BUDGET, namer)
     be.owner = S
+    sh = shape_of(c)
+    be.faults = {"write": write_faults(c)}
+    be.apis = [dict(a) for a in API_INFOS] if sh["api"] else []
 
     # the played objects (built outside the scheduled world: no yield point)
     shared = {}
@@ -301,9 +372,9 @@ def run_case(c, pinned=False):
     def played_object(m, cmd):
         cs, dfmt, src, fail = play_opts(c, cmd)
         if not fine:
-            return samples(m, cmd[1])
+            return spell(samples(m, cmd[1]), kind_of(c, cmd))
         if src is None:
-            return Hooked(samples(m, cmd[1]), S, fail)
+            return Hooked(spell(samples(m, cmd[1]), kind_of(c, cmd)), S, fail)
         how, g = src
         if how == "tee":
             return Hooked(shared[g]["tee"].copy(), S, fail)
@@ -321,11 +392,11 @@ def run_case(c, pinned=False):
                     m = nplay
                     nplay += 1
                     cs, dfmt, src, fail = play_opts(c, cmd)
-                    kw = {"chunk_size": cs}
-                    if dfmt != "f":
-                        kw["dfmt"] = dfmt
+                    kw, _call = call_of(c, cmd)
                     obj = played_object(m, cmd)
-                    ctx["started"].append({"m": m, "cs": cs, "dfmt": dfmt, "fail": fail})
+                    half = kind_of(c, cmd).startswith("half") and src is None
+                    ctx["started"].append({"m": m, "cs": samples_per_chunk(c, cmd), "frames": cs, "dfmt": dfmt,
+                                           "fail": fail, "scale": 2 if half else 1})
                     try:
                         th = io.play(obj, **kw)
                     except Exception:
@@ -334,7 +405,7 @@ def run_case(c, pinned=False):
                     ctx["ths"].append(th)
                     ctx["log"].append(["play", "ok"])
                 elif op == "close":
-                    io.close()
+                    getattr(io, sh["close_how"])()
                     ctx["log"].append(["close", "ok"] + snapshot(io))
                 else:
                     i = cmd[1]
@@ -351,14 +422,27 @@ def run_case(c, pinned=False):
             except Exception as e:
                 ctx["log"].append([op, common.err_kind(e)])
 
+    def manager():
+        a, kw = [], {}
+        if sh["wait_how"] == "pos":
+            a.append(wait)
+        elif sh["wait_how"] == "kw":
+            kw["wait"] = wait
+        if sh["api"]:
+            if a and len(script) % 2:
+                a.append("jack")
+            else:
+                kw["api"] = "jack"
+        return mod.AudioIO(*a, **kw)
+
     def main():
         if c.get("with"):
-            with mod.AudioIO(wait) as io:
+            with manager() as io:
                 ctx["io"] = io
                 body(io)
             ctx["log"].append(["close", "ok"] + snapshot(io))
         else:
-            io = mod.AudioIO(wait)
+            io = manager()
             ctx["io"] = io
             body(io)
 
@@ -368,11 +452,15 @@ def run_case(c, pinned=False):
         io = ctx["io"]
         sts = []
         for k, st in enumerate(be.streams):
-            info = ctx["started"][k] if k < len(ctx["started"]) else {"m": None, "cs": c["cs"], "dfmt": "f", "fail": False}
-            sts.append({"written": [decode(d, info["cs"], info["dfmt"]) for d, _n in st.writes],
+            info = ctx["started"][k] if k < len(ctx["started"]) else {
+                "m": None, "cs": c["cs"], "frames": c["cs"], "dfmt": "f", "fail": False, "scale": 1}
+            wf = be.faults["write"].get(k)
+            sts.append({"written": [decode(d, info["cs"], info["dfmt"], info["scale"]) for d, _n in st.writes],
                         "nframes": sorted({n for _d, n in st.writes}),
-                        "state": st.state, "m": info["m"], "cs": info["cs"], "dfmt": info["dfmt"],
-                        "fail": info["fail"]})
+                        "state": st.state, "m": info["m"], "cs": info["cs"], "frames": info["frames"],
+                        "dfmt": info["dfmt"], "fail": info["fail"],
+                        "write_failed": "write!" in st.calls, "write_fault": wf,
+                        "open": {a: b for a, b in sorted(st.kwargs.items())}})
         obs.update({
             "log": [list(e) for e in ctx["log"]],
             "streams": sts,
@@ -388,18 +476,24 @@ def run_case(c, pinned=False):
     S.on_end = capture
     strategy = c.get("strategy", "struct")
     saved_default = mod.chunks.default
+    saved_size = type(mod.chunks).size
     if strategy != "struct":
         mod.chunks.default = getattr(mod.chunks, strategy)
+    if sh["cs_how"] == "default":
+        type(mod.chunks).size = c["cs"]       # "Default chunk size can be ... changed via chunks.size"
     try:
         outcome = S.run(main)
     finally:
         mod.chunks.default = saved_default
+        type(mod.chunks).size = saved_size
     io = ctx["io"]
     if "log" not in obs:
         capture()
     crashes = [[r.tid, r.crash] for r in S.recs if r is not None and r.crash]
-    # a player whose iterable was made to raise dies on that exception: expected, listed apart
+    # a player whose iterable was made to raise (or whose backend write was made to raise) dies on
+    # that exception: expected, listed apart
     fails = {k + 1 for k, st in enumerate(obs["streams"]) if st["fail"]}
+    wfails = {k + 1 for k, st in enumerate(obs["streams"]) if st["write_failed"]}
     obs.update({
         "outcome": outcome,
         "steps": ["%d|%s" % (ch, pend_str(p)) for ch, p in S.trace if ch is not None],
@@ -409,8 +503,10 @@ def run_case(c, pinned=False):
         # switched away from had pending ("label:enabled", "" when it had finished)
         "own": [next((l for t, l, _e in p if t == ch), "") for ch, p in S.trace if ch is not None],
         "left": _left_behind(S.trace),
-        "crashes": [x for x in crashes if not (x[0] in fails and FAIL_MSG in x[1])],
-        "died": sorted(x[0] - 1 for x in crashes if x[0] in fails and FAIL_MSG in x[1]),
+        "crashes": [x for x in crashes if not (x[0] in fails and FAIL_MSG in x[1])
+                    and not (x[0] in wfails and WRITE_FAIL_MSG in x[1])],
+        "died": sorted(x[0] - 1 for x in crashes if (x[0] in fails and FAIL_MSG in x[1])
+                       or (x[0] in wfails and WRITE_FAIL_MSG in x[1])),
         "hook_errors": S.hook_errors[:3],
     })
     if io is not None:
@@ -455,7 +551,9 @@ def key(c):
     k = [c["script"], c["wait"], c["cs"], bool(c.get("with")), c.get("schedule", [])]
     if is_fine(c):
         k += ["fine", c.get("strategy", "struct"), c.get("sources", [])]
-    return common.json.dumps(k)
+    if c.get("shape") or c.get("faults"):
+        k += [c.get("shape") or {}, c.get("faults") or {}]
+    return common.json.dumps(k, sort_keys=True)
 
 
 def _case(cfg, chosen):
@@ -644,7 +742,10 @@ def random_fine_cfg(rng):
     for _ in range(rng.choice([0, 0, 1, 2])):
         tail.append([rng.choice(["pause", "resume", "stop", "join"]), rng.randrange(nplayers)])
     tail.append(["close"])
-    return fine_cfg(plays, tail, sources, rng.random() < 0.6, rng.choice(STRATEGIES), cs)
+    cfg = fine_cfg(plays, tail, sources, rng.random() < 0.6, rng.choice(STRATEGIES), cs)
+    if rng.random() < 0.5:
+        cfg["shape"] = random_shape(rng, fine=True)
+    return cfg
 
 
 def generate_fine(rng, tier, scale):
@@ -683,6 +784,55 @@ def generate_fine(rng, tier, scale):
     return cases
 
 
+def random_shape(rng, fine=False):
+    """how the calls are written: every dimension of shape_of, mostly non-default"""
+    sh = {}
+    if rng.random() < 0.4:
+        sh["cs_how"] = "default"
+    if rng.random() < 0.35:
+        sh["rate"] = rng.choice([8000, 22050, 48000])
+    if not fine and rng.random() < 0.2:
+        sh["channels"] = 2
+    sh["wait_how"] = rng.choice(["pos", "kw", "omit"])
+    if rng.random() < 0.3:
+        sh["api"] = True
+    if rng.random() < 0.15:
+        sh["device"] = rng.choice([0, 4])
+    sh["kind"] = rng.choice(KINDS)
+    if rng.random() < 0.25:
+        sh["close_how"] = "terminate"
+    return sh
+
+
+# call shapes explored systematically (one dimension away from the plain call each, and all at once)
+SHAPES = [
+    {"cs_how": "default"},
+    {"rate": 8000, "wait_how": "kw"},
+    {"channels": 2, "kind": "float"},
+    {"wait_how": "omit", "kind": "fraction"},
+    {"api": True, "kind": "half-float"},
+    {"api": True, "device": 4, "close_how": "terminate"},
+    {"cs_how": "default", "rate": 48000, "channels": 2, "wait_how": "kw", "api": True, "kind": "half-fraction",
+     "close_how": "terminate"},
+]
+SHAPE_HISTORIES = [
+    [["play", 3], ["close"]],
+    [["play", 4], ["pause", 0], ["resume", 0], ["close"]],
+    [["play", 0], ["play", 5], ["close"], ["play", 1]],
+]
+# a backend write that raises after n writes (player index -> n): the thread must still close its
+# stream and leave `_threads`, close() must return
+FAULT_FAMILIES = [
+    ([["play", 5], ["close"]], {"0": 0}),
+    ([["play", 5], ["close"]], {"0": 1}),
+    ([["play", 5], ["close"]], {"0": 2}),
+    ([["play", 4], ["close"]], {"0": 2}),          # as many good writes as the audio has chunks: no failure
+    ([["play", 4], ["play", 3], ["close"]], {"1": 1}),
+    ([["play", 5], ["stop", 0], ["close"]], {"0": 1}),
+    ([["play", 5], ["pause", 0], ["resume", 0], ["join", 0], ["close"]], {"0": 2}),
+]
+
+
 def _resize(script, rng, lo, hi):
     return [[c[0], rng.randint(lo, hi)] if c[0] == "play" else list(c) for c in script]
 
@@ -707,6 +857,16 @@ def generate(rng, tier, scale=1):
                 for wait in (False, True):
                     cfg = {"script": h, "wait": wait, "cs": 3, "with": False}
                     cases += explore(cfg, 1 if quick else 2, 300 if quick else 3000)
+            for si, shp in enumerate(SHAPES):
+                for hi, h in enumerate(SHAPE_HISTORIES):
+                    cfg = {"script": h, "wait": bool((si + hi) % 2), "cs": 2, "with": False, "shape": shp}
+                    cases += explore(cfg, 1 if quick else 2, 40 if quick else 600)
+            for fi, (h, wf) in enumerate(FAULT_FAMILIES):
+                for wait in (False, True):
+                    cfg = {"script": h, "wait": wait, "cs": 2, "with": False, "faults": {"write": wf}}
+                    if fi % 3 == 1:
+                        cfg["shape"] = {"cs_how": "default", "kind": "half-float"}
+                    cases += explore(cfg, 2, 120 if quick else 1500)
             if not quick:
                 # chunk counts 0..4 for every one-player history
                 for h in HISTORIES_1:
@@ -725,6 +885,10 @@ def generate(rng, tier, scale=1):
                 h.insert(rng.randrange(1, len(h) + 1), extra)
             cfg = {"script": h, "wait": rng.random() < 0.5, "cs": rng.choice([1, 2, 3]),
                    "with": rng.random() < 0.2}
+            if rng.random() < 0.7:
+                cfg["shape"] = random_shape(rng)
+            if rng.random() < 0.2:
+                cfg["faults"] = {"write": {str(rng.randrange(2)): rng.randint(0, 3)}}
             cases += random_walks(cfg, rng, 2)
         cases += generate_fine(rng, tier, scale)
     # distinct
@@ -756,20 +920,33 @@ def request_for(c, chosen):
     script = []
     fails = []
     closed = False
+    sh = shape_of(c)
+    wf = write_faults(c)
     for cmd in full_script(c):
         if cmd[0] == "play":
             cs, _dfmt, _src, fail = play_opts(c, cmd)
-            script.append(["play", audio_of(c, m, cmd), cs])
+            audio = audio_of(c, m, cmd)
+            spc = samples_per_chunk(c, cmd)
             if not closed:
-                fails.append(fail)      # by player index: a play after close creates no player
+                # by player index: a play after close creates no player.  A backend write made to
+                # raise after n writes is, for the thread, an iterable that raises after n chunks
+                # (the exception leaves `run` through its `finally` at the operation `st<k>.write`)
+                n_ok = wf.get(len(fails))
+                if n_ok is not None and n_ok < -(-len(audio) // spc):      # fewer than its chunks
+                    audio = audio[:n_ok * spc]
+                    fail = True
+                fails.append(fail)
+            script.append(["play", audio, None, call_of(c, cmd)[1]])
             m += 1
         else:
             script.append(cmd[:2])
             closed = closed or cmd[0] == "close"
-    r = {"entry": c.get("entry", "sched"), "wait": bool(c["wait"]), "fixed": variant() == "fixed", "cs": c["cs"],
-         "script": script, "schedule": chosen}
+    r = {"entry": c.get("entry", "sched"), "wait": bool(c["wait"]), "fixed": variant() == "fixed",
+         "cs": c["cs"] if sh["cs_how"] == "default" else DEFAULT_CHUNKS_SIZE,
+         "script": script, "schedule": chosen, "fails": fails,
+         "apiOut": API_INFOS[1]["defaultOutputDevice"] if sh["api"] else None}
     if is_fine(c):
-        r.update({"fails": fails, "dieFixed": die_variant() == "fixed"})
+        r.update({"dieFixed": die_variant() == "fixed"})
     return r
 
 
@@ -802,13 +979,28 @@ def spec_problems(c, io, drv):
             out.append(("delivered", "stream %d has no play call" % k))
             continue
         w = st["written"]
+        # an iterable that raises after its samples delivers the chunks that were complete (theorem
+        # delivered_failing); a backend write made to raise: the chunks written before (the request
+        # carries the audio cut there)
+        full = want[m]
+        if st["fail"]:
+            plays = [x for x in full_script(c) if x[0] == "play"]
+            full = want[m][:len(audio_of(c, m, plays[m])) // cs]
         if w != want[m][:len(w)]:
             out.append(("delivered", "stream %d received %r, not a prefix of %r" % (k, w, want[m])))
-        elif (k < len(io["alive"]) and not io["alive"][k] and not io["halting"][k] and w != want[m]
-              and io["outcome"] == "done" and not st["fail"]):
-            out.append(("delivered-incomplete", "stream %d: player finished un-stopped after %d of %d chunks" % (k, len(w), len(want[m]))))
-        if st["nframes"] not in ([], [cs]):
-            out.append(("delivered", "stream %d: frames per write %r, chunk size %d" % (k, st["nframes"], cs)))
+        elif (k < len(io["alive"]) and not io["alive"][k] and not io["halting"][k] and w != full
+              and io["outcome"] == "done"):
+            out.append(("delivered-incomplete", "stream %d: player finished un-stopped after %d of %d chunks" % (k, len(w), len(full))))
+        if st["nframes"] not in ([], [st["frames"]]):
+            out.append(("delivered", "stream %d: frames per write %r, chunk size %d" % (k, st["nframes"], st["frames"])))
+        exp = drv["spec"]["opens"][m] if m < len(drv["spec"].get("opens", [])) else None
+        if exp is not None:
+            got = dict(st["open"])
+            got.setdefault("output_device_index", None)
+            if got != exp["open"]:
+                out.append(("open-arguments", "stream %d: pa.open(**%r), expected %r" % (k, got, exp["open"])))
+            if exp["samples"] != cs:
+                out.append(("open-arguments", "stream %d: harness chunk size %d, spec %d" % (k, cs, exp["samples"])))
     if io["protocol_errors"]:
         out.append(("backend-protocol", io["protocol_errors"][0]))
     if io["crashes"]:
@@ -963,6 +1155,21 @@ def tally(eng, c, io):
     if io.get("outcome") == "deadlock":
         eng.count("deadlock_pending", io["final"])
     eng.count("granularity", "fine (every pull is a step)" if is_fine(c) else "coarse (synchronisation + backend)")
+    sh = shape_of(c)
+    eng.count("shape.chunk_size", "omitted (chunks.size)" if sh["cs_how"] == "default" else "keyword")
+    eng.count("shape.rate", "omitted (44100)" if sh["rate"] is None else "keyword")
+    eng.count("shape.channels", "omitted (1)" if sh["channels"] is None else "keyword %d" % sh["channels"])
+    eng.count("shape.wait", {"pos": "positional", "kw": "keyword", "omit": "omitted (False)"}[sh["wait_how"]])
+    eng.count("shape.api", ("api='jack'" if sh["api"] else "omitted") + (", explicit output_device_index" if sh["device"] is not None else ""))
+    eng.count("shape.sample_kind", sh["kind"])
+    eng.count("shape.close", sh["close_how"])
+    for k, st in enumerate(io.get("streams", [])):
+        if st.get("m") is not None:
+            plays = [x for x in full_script(c) if x[0] == "play"]
+            n = len(audio_of(c, st["m"], plays[st["m"]])) if st["m"] < len(plays) else 0
+            eng.count("audio_length", "zero" if n == 0 else ("exact multiple of the chunk" if n % st["cs"] == 0 else "with a partly filled last chunk"))
+        if st.get("write_fault") is not None:
+            eng.count("fault.backend_write", "raised after %d writes" % st["write_fault"] if st["write_failed"] else "armed, never reached")
     if is_fine(c):
         tally_fine(eng, c, io)
 
